@@ -342,3 +342,24 @@ claim("C20", "other",
       "writer line templates vs the neighbour-file protocol (R-PROTO), cursor/id/frame index rules (R-IDX), typestate of file "
       "handles (R-HANDLE), exact algebra and ordering rules of the matrix assembly (R-ALG), save-site rule (R-SAVE)",
       "DESIGN.md section 4, C20")
+
+claim("C07", "other",
+      "Decides ONE necessary condition of the property and nothing else. Translation and lattice-image invariance require that "
+      "absolute coordinates reach a result only (1) as a difference of two positions that is the first argument of remove_pbc "
+      "before any use, (2) inside an S(q) phase - the product with the wave-vector table (integer vectors x 2 pi/L) under a "
+      "component sum inside exp(+-i .), (3) as a shape query, or (4) at a tabled site with a stated reason (inter-frame "
+      "displacements of the dynamics module, decided under C06; hand-over to freud / voro++; orientation vectors stored in the "
+      "positions field of the nematic trajectory). Every occurrence of <snapshot>.positions inside a value that any function "
+      "outside the readers/writers stores, accumulates, returns or writes is classified by its enclosing operators (180 "
+      "occurrences in 32 functions today); a raw difference, an absolute coordinate in a product or sum, or a difference in the "
+      "wrong slot is reported with the statement. Also: per-particle result arrays of the seven per-particle routines are "
+      "indexed by the particle loop variable itself (id relabelling permutes the output). NOT decided and not claimed: rotation "
+      "invariance of q_l / w-hat_l / |psi_l| / tetrahedral order / shape descriptors / participation ratio, axis-permutation and "
+      "dilation invariance, species-swap column exchange as numbers, floating-point accuracy - theorems about the computed "
+      "functions, not shapes of the code; the forms they rest on are decided under C03, C04, C08-C10, C17.",
+      "Trusted: remove_pbc's form (C02) and the per-routine argument roles (C03, C05, C06, C09, C10, C13, C15, C16, C17); the "
+      "tabled exceptions in pmsa/checks/c07.py (each with its reason); values flowing only through locals that are never "
+      "stored/returned are not coordinate outputs.",
+      "package-wide flow classification of coordinate occurrences on the value graph (R-PBC-FLOW) with an explicit exception "
+      "table; particle-index rule for per-particle outputs (R-IDX)",
+      "DESIGN.md section 4, C07")
